@@ -76,6 +76,14 @@ type Val struct {
 	Re    *string // *regexp.Regexp with a known constant pattern
 	Range *RangeState
 	Sort  string // spec-level values whose sort is not a Go type (T == nil)
+	Runes *RuneSrc // []rune values that are a window of []rune(s): which string, starting at which rune index
+}
+
+// RuneSrc is the provenance of a rune slice obtained from a string (A7: valid UTF-8): the slice holds the runes
+// Lo, Lo+1, ... of S; rune k of S occupies the bytes rune_off(S,k) .. rune_off(S,k+1)-1.
+type RuneSrc struct {
+	S  string
+	Lo string
 }
 
 // State is the mutable part of the symbolic state.
